@@ -281,3 +281,57 @@ Example C02_nnchain_runs_exist :
   forallb (fun meth => is_ok (nnchain_with (kops_of (QFr (fun x => x)) meth) Debug meth (st_new Q) (d_new Q 0) ex_m 6))
     [Complete; Average; Weighted; Ward] = true.
 Proof. vm_compute. reflexivity. Qed.
+
+(* ---- Part E: the same through generic_with (what `linkage` runs for centroid
+   and median) - generic in the criterion, and for ALL seven methods in exact
+   rational arithmetic with an infinite sentinel (carrier option Q, None =
+   max_value = +infinity; Proofs/QInf.v) ---- *)
+Require Import KV.Model.Generic KV.Proofs.GenericInv KV.Proofs.GenericCriterion KV.Proofs.QInf.
+
+Theorem C02_generic_criterion : forall (T : Type) (K : kops T) (p : profile) (meth : method),
+  (forall a, k_ltb K a a = false) ->
+  (forall a b c, k_ltb K a b = true -> k_ltb K b c = true -> k_ltb K a c = true) ->
+  (forall a b c, k_ltb K a b = false -> k_ltb K b c = false -> k_ltb K a c = false) ->
+  (forall a, k_eqb K a a = true) ->
+  (forall va vb md sa sb sx, k_ltb K va (k_max K) = true -> k_ltb K vb (k_max K) = true -> k_ltb K md (k_max K) = true ->
+     k_ltb K (k_upd K va vb md sa sb sx) (k_max K) = true) ->
+  forall crit : mtree -> mtree -> T -> Prop,
+  (forall A B v, crit A B v -> crit B A v) ->
+  (forall X A B va vb md, crit X A va -> crit X B vb -> crit A B md ->
+     crit X (Node A B) (k_upd K va vb md (tsize A) (tsize B) (if uses_size_x meth then tsize X else 0))) ->
+  (uses_sizes_ab meth = false ->
+     forall va vb md sa sb sa' sb' sx, k_upd K va vb md sa sb sx = k_upd K va vb md sa' sb' sx) ->
+  forall s d m n s' d' m' M0,
+  Forall (fun v => k_ltb K v (k_max K) = true) (square_all K m) ->
+  generic_with K p meth s d m n = Ok (s', d', m') ->
+  prologue p (square_all K m) n = Ok M0 ->
+  (forall x y v, x <> y -> x < m_obs M0 -> y < m_obs M0 -> wcell M0 x y = Some v -> crit (Leaf x) (Leaf y) v) ->
+  exists raw tr L' mem',
+    mtrace (seq 0 (m_obs M0)) Leaf tr L' mem'
+    /\ Forall2 (fun st (ab : mtree * mtree) => crit (fst ab) (snd ab) (s_dis st)) raw tr
+    /\ length raw = m_obs M0 - 1
+    /\ Permutation (heights d') (map (k_rt K) (map (@s_dis T) raw)).
+Proof. exact generic_criterion. Qed.
+Print Assumptions C02_generic_criterion.
+
+Theorem C02_generic_QI : forall (p : profile) (rt : Q -> Q) (meth : method) s d (mq : list Q) (n : N) s' d' m' M0,
+  generic_with (kops_of (QI rt) meth) p meth s d (map Some mq) n = Ok (s', d', m') ->
+  prologue p (square_all (kops_of (QI rt) meth) (map Some mq)) n = Ok M0 ->
+  exists raw tr L' mem',
+    mtrace (seq 0 (m_obs M0)) Leaf tr L' mem'
+    /\ Forall2 (fun st (ab : mtree * mtree) => critI meth M0 (fst ab) (snd ab) (s_dis st)) raw tr
+    /\ length raw = m_obs M0 - 1
+    /\ Permutation (heights d') (map (k_rt (kops_of (QI rt) meth)) (map (@s_dis qi) raw)).
+Proof. exact generic_QI_criterion. Qed.
+Print Assumptions C02_generic_QI.
+
+(* reading of critI: a finite value that is the closed-form criterion *)
+Theorem C02_critI_reading : forall (meth : method) (M0 : cmat qi) A B v,
+  critI meth M0 A B v <-> exists q, v = Some q /\ crit_of meth (Mq M0) A B q.
+Proof. intros; reflexivity. Qed.
+
+(* non-vacuity: generic over option Q returns on a concrete input for every method *)
+Example C02_generic_QI_runs_exist :
+  forallb (fun meth => is_ok (generic_with (kops_of (QI (fun x => x)) meth) Debug meth (st_new qi) (d_new qi 0) (map Some ex_m) 6))
+    [Single; Complete; Average; Weighted; Ward; Centroid; Median] = true.
+Proof. vm_compute. reflexivity. Qed.
